@@ -109,6 +109,16 @@ std::vector<Job> jobsFor(const std::string& tier, const bool traceBuild){
             if(tier != "thorough" && job.mode == 2 && job.name == "h4-11leaves-bs4-two") job.bound = 1;
         }
     }
+    if(getenv("VF_SCHED_LIGHT")){
+        // sanitizer builds (C15): exhaustive only on the smallest graphs, deviation bound 1 on the others, W=2 for the mid-size trees
+        std::vector<Job> light;
+        for(auto& job : j){
+            if(job.mode == 1 && job.nbWorkers != 2) continue;
+            if(job.mode != 1 && job.name != "h3-4leaves-bs2" && job.name != "h3-4leaves-bs2-ogpp" && job.name != "h4-4leaves-bs2"){ job.mode = 2; job.bound = 1; }
+            light.push_back(job);
+        }
+        j = light;
+    }
     if(TSM){
         // target/source: the listed leaves are the targets; sources sit on a shifted/overlapping set of leaves with another motif
         for(auto& job : j){
